@@ -24,6 +24,7 @@ def floors(m, tier):
             "untyped sids": (m.counters.get("untyped", 0), BUDGET[tier] // 20),
             "get_as evaluations": (m.counters.get("get_as", 0), BUDGET[tier]),
             "forced-type sids": (m.counters.get("forced", 0), 50),
+            "sids carrying a refused query": (m.counters.get("refused_query_sids", 0), 200),
             "query-built sids": (m.counters.get("query_built", 0), 200),
             "path-built sids": (m.counters.get("path_built", 0), 200)}
 
@@ -126,6 +127,47 @@ def check_typed(rec, model, Sid, s, natural=True, from_path=None):
     return x
 
 
+def check_refused_query(rec, model, Sid, s, tail):
+    """A typed Sid that carries a REFUSED query (type and fields untouched, query text kept in the string - C04): the navigations
+    are judged on its fields (its string is not the canonical rendering, so the string clauses do not apply)."""
+    case = {"s": s, "refused_query": tail}
+    try:
+        y = Sid(s + "?" + tail)
+    except Exception as e:
+        rec.violation("raised", case, repr(e))
+        return
+    if not y or "?" not in str(y):
+        return
+    rec.count("refused_query_sids")
+    items = list(y.fields.items())
+    keys = [k for k, _ in items]
+
+    def bad(kind, detail):
+        rec.violation(kind, dict(case), detail)
+    try:
+        if len(y) != len(items):
+            bad("len", "%r != %r" % (len(y), len(items)))
+        if y.keytype != keys[-1]:
+            bad("keytype", "%r != %r" % (y.keytype, keys[-1]))
+        if y.basetype != y.type.split(model.sep)[0]:
+            bad("basetype", "%r vs type %r" % (y.basetype, y.type))
+        for i, k in enumerate(keys):
+            g = y.get_as(k)
+            if not g or list(g.fields.items()) != items[:i + 1]:
+                bad("get_as_fields", "get_as(%r) -> %r" % (k, g))
+        p = y.parent
+        if len(keys) == 1:
+            if not (p == y and p.type == y.type):
+                bad("root_parent", "parent of one-field sid: %r" % p)
+        else:
+            if list(p.fields.items()) != items[:-1] or len(p) != len(y) - 1:
+                bad("parent_vs_get_as", "parent %r of %r" % (p, y))
+        if y.get_as("no_such_key__"):
+            bad("get_as_missing_key", repr(y.get_as("no_such_key__")))
+    except Exception as e:
+        bad("raised", repr(e))
+
+
 def check_untyped(rec, Sid, s):
     case = {"s": s}
     try:
@@ -165,7 +207,10 @@ def worker(args):
     if "replay" in args:
         s = args["replay"]["s"]
         rec.ev()
-        check_typed(rec, model, Sid, s, natural=":" not in s, from_path=args["replay"].get("from_path_config"))
+        if args["replay"].get("refused_query"):
+            check_refused_query(rec, model, Sid, s, args["replay"]["refused_query"])
+        else:
+            check_typed(rec, model, Sid, s, natural=":" not in s, from_path=args["replay"].get("from_path_config"))
         fin()
         return rec.result()
     usable = [t for t in model.templates if vocab.usable(t)]
@@ -180,6 +225,8 @@ def worker(args):
         elif r < 0.4:
             s = vocab.valid_string(t, rng)
             x = check_typed(rec, model, Sid, s)
+            if rng.random() < 0.25 and "?" not in s:
+                check_refused_query(rec, model, Sid, s, rng.choice(["thumbnail=img/%s.png" % t.keys[0], "zz=1", "note=a/b/c", "zz=/", "a=b&c=d/e"]))
         elif r < 0.75:
             s, _ = vocab.search_string(t, rng, p_sym=rng.choice([0.2, 0.5, 1.0]))
             x = check_typed(rec, model, Sid, s)
